@@ -38,6 +38,7 @@ def guard(e):
 
 
 QUERY_TIMEOUT_MS = 120000
+FRESH_SOLVER = False    # decide every branch with a fresh one-shot solver over the path condition (set by FP configurations)
 FLOAT_AS_DECIMAL = False
 
 
@@ -135,6 +136,13 @@ class Ctx:
 
     # -- solver helpers
     def feasible(self, cond):
+        if FRESH_SOLVER:
+            # floating-point configurations: z3's incremental core is far slower on QF_FP than the one-shot tactic solver
+            s = z3.Solver()
+            s.set('timeout', QUERY_TIMEOUT_MS)
+            s.add(*self.pc)
+            s.add(cond)
+            return _check(s) == 'sat'
         self.solver.push()
         self.solver.add(cond)
         try:
@@ -255,7 +263,7 @@ def explore(fn, max_paths=20000, budget_s=None):
             ctx.aborted = True
         for idx in ctx.pending:
             stack.append(ctx.decisions[:idx] + [False])
-        if res is not None and _check(ctx.solver) != 'sat':
+        if res is not None and not FRESH_SOLVER and _check(ctx.solver) != 'sat':
             res = None           # assumptions added after the last branch made the path infeasible
             ctx.aborted = True
         n += 1
